@@ -5,12 +5,15 @@ PROP = "C09"
 
 
 def run(tier):
+    QUICK_CFGS = lambda: vfsrun.cfgs([0, 5], [0, 2, 3], [2, 3, 6, 7]) + vfsrun.cfgs([5], [2], [0, 1, 4])
+    extra = []
     if tier == "quick":
-        cfgs = vfsrun.cfgs([0, 5], [0, 2, 3], [2, 3, 6, 7]) + vfsrun.cfgs([5], [2], [0, 1, 4])
+        cfgs = QUICK_CFGS()
         depth = 4
     else:
         cfgs = vfsrun.cfgs([0, 1, 5, 8], [0, 2, 3], [2, 3, 6, 7]) + vfsrun.cfgs([5], [0, 2, 3], [0, 1, 4, 5]) + vfsrun.cfgs([5], [2, 3], [2, 7], ticks=(1,))
-        depth = 5
+        depth = 4
+        extra = [(QUICK_CFGS(), 5)]      # depth 5 on the quick configuration set, depth 4 on the full set: sized to finish (see vfsrun.DEADLINE)
     deep = (vfsrun.cfgs([0, 5], [0, 3], [2, 3, 6, 7]), 6) if tier == 'quick' else (cfgs, 7)
     return vfsrun.hist_check(
         PROP, tier, cfgs, depth, maxday=2,
